@@ -720,6 +720,7 @@ OP_WEIGHTS = [
     ('tick', 1), ('cycle', 26), ('probe', 0), ('reload_cell', 2),
     ('add_pod', 1), ('lease_squeeze', 2), ('stale_mark', 2),
     ('revalidate', 1), ('reboot_forward', 2), ('relimit', 2),
+    ('renew_on_inactive', 2),
 ]
 
 
@@ -1083,6 +1084,33 @@ class Generator:
             template = spec['demand']
             ops.append(spec)
         ops.append({'op': 'cycle'})
+        self.follow.extend(ops[1:])
+        return ops[0]
+
+    def g_renew_on_inactive(self, world):
+        """A leased instance sits on a server that is frozen (or goes down
+        within retention); by the time it asks for a renewal the lease no
+        longer fits before that server's reboot, and nothing else has room:
+        it must end the cycle where it was, and nobody ahead of it may pay
+        for it."""
+        rng = self.rng
+        now = world.clock.peek()
+        cands = []
+        for name in sorted(world.cell.apps):
+            app = world.cell.apps[name]
+            srv = world.servers.get(app.server) if app.server else None
+            if app.lease and srv is not None and srv.valid_until and \
+                    srv.state is scheduler.State.up:
+                cands.append((name, app, srv))
+        if not cands:
+            return None
+        name, app, srv = rng.choice(cands)
+        dt = srv.valid_until - app.lease - now + rng.choice([1.0, 60.0])
+        ops = [{'op': 'srv_state', 'name': srv.name,
+                'state': rng.choice(['frozen', 'frozen', 'down'])}]
+        if dt > 0:
+            ops.append({'op': 'advance', 'dt': round(dt, 3)})
+        ops.extend([{'op': 'renew', 'name': name}, {'op': 'cycle'}])
         self.follow.extend(ops[1:])
         return ops[0]
 
